@@ -49,6 +49,39 @@ pub fn exec_case(m: &mut Machine, c: &Case) -> StepOut {
     out
 }
 
+/// "A used machine": before the cases of a thread, the emulator object goes through a short unlogged history -
+/// handlers installed through the set_handler call for a few vectors, the timer started, run and stopped - and the
+/// memory is put back.  Architecturally nothing is left of it; an implementation that keeps hidden state
+/// (caches, protection bits, stale residues) carries it into the cases that follow, where the properties still hold.
+pub fn prime(m: &mut Machine) {
+    let b = BUS_INIT;
+    for (i, v) in [1u32, 7, 12, 24, 36, 37, 39, 63].iter().enumerate() {
+        let blk = 0xffd100u32;
+        let mut pokes = vec![(ABWCR, b[0]), (ASTCR, b[1]), (WCRH, b[2]), (WCRL, b[3]), (DRCRA, b[4])];
+        for (k, byte) in v.to_be_bytes().iter().chain((0xffe000u32 + 16 * i as u32).to_be_bytes().iter()).enumerate() {
+            pokes.push((blk + k as u32, *byte));
+        }
+        let mut regs = Regs::default();
+        regs.er[0] = 113;
+        regs.er[1] = blk;
+        regs.er[7] = 0xffef00;
+        regs.pc = 0xffc000;
+        let c = case_from_words("prime", "", &[0x5700], regs, 0xffc000, &pokes);
+        let _ = exec_case(m, &c);
+    }
+    for (a, v) in [(0xffff84u32, 0x10u8), (0xffff80, 0x01)] {
+        let o = m.bus_write(a, v);
+        m.commit(&o.wr);
+    }
+    let o = m.update_modules(200);
+    m.commit(&o.wr);
+    let o = m.bus_write(0xffff80, 0);
+    m.commit(&o.wr);
+    m.cpu.vh_clear_pending();
+    let d = m.diff();
+    m.restore(&d);
+}
+
 /// A job = (form index, case number within the form, generator kind)
 #[derive(Clone, Copy)]
 pub struct Job {
@@ -176,6 +209,7 @@ pub fn run_step_cases(args: &Args) -> Result<()> {
         let path = format!("{}/cases_{:02}.ndjson", outdir, t);
         handles.push(std::thread::spawn(move || -> Result<(u64, u64, u64)> {
             let mut m = Machine::new(Bg::Tag);
+            prime(&mut m);
             let mut w = BufWriter::with_capacity(1 << 20, std::fs::File::create(&path)?);
             let (mut n, mut nerr, mut npanic) = (0u64, 0u64, 0u64);
             // contiguous slice per thread keeps each shard's events of one form together
@@ -219,6 +253,8 @@ pub fn run_replay(args: &Args) -> Result<()> {
     let text = std::fs::read_to_string(input)?;
     let mut m = Machine::new(Bg::Tag);
     let mut mz = Machine::new(Bg::Zero);
+    prime(&mut m);
+    prime(&mut mz);
     let mut w = BufWriter::new(std::fs::File::create(output)?);
     for line in text.lines() {
         if line.trim().is_empty() {
